@@ -492,6 +492,38 @@ func stRead(w *TraceWriter, schema string, in []byte, seeds []int, note string) 
 		val3 = readValJSON(v3, seeds)
 	}
 	w.Ev("st_read", "schema", schema, "note", note+"-spancache", "in", projectBytes(in, seeds), "ok", ok3, "n", n3, "val", val3, "panic", pan3)
+	// what was decoded belongs to the caller: it adds to / deletes from every decoded map, and the same bytes are decoded
+	// once more into a fresh struct - they still mean what they meant
+	for _, r := range []fastStruct{v, u, v3} {
+		switch x := r.(type) {
+		case *base.Base:
+			if x != nil && x.Extra != nil {
+				x.Extra["\x00seen-by\x00"] = "caller"
+				delete(x.Extra, "")
+			}
+		case *base.BaseResp:
+			if x != nil && x.Extra != nil {
+				x.Extra["\x00seen-by\x00"] = "caller"
+				delete(x.Extra, "")
+			}
+		}
+	}
+	v4 := fresh(schema)
+	ok4, n4, pan4 := false, 0, false
+	func() {
+		defer func() {
+			if p := recover(); p != nil {
+				pan4 = true
+			}
+		}()
+		k, err := v4.FastRead(in)
+		ok4, n4 = err == nil, k
+	}()
+	val4 := Raw("{}")
+	if ok4 && !pan4 {
+		val4 = readValJSON(v4, seeds)
+	}
+	w.Ev("st_read", "schema", schema, "note", note+"-after-the-caller-changed-earlier-results", "in", projectBytes(in, seeds), "ok", ok4, "n", n4, "val", val4, "panic", pan4)
 }
 
 func runStructCase(raw json.RawMessage, w *TraceWriter) {
